@@ -5,6 +5,7 @@ import (
 	"errors"
 	"fmt"
 	"math"
+	"math/big"
 	"os"
 	"path/filepath"
 	"runtime/debug"
@@ -904,6 +905,14 @@ func (r *walRun) run() string {
 				keepBatch[fmt.Sprintf("%020d-%016x.wal", parseU(ops[p]), parseU(ops[p+1]))] = true
 				p += 2
 			}
+			nt := int(parseU(ops[p]))
+			p++
+			torn := map[string]*big.Int{}
+			for j := 0; j < nt; j++ {
+				m, _ := new(big.Int).SetString(ops[p+2], 16)
+				torn[fmt.Sprintf("%020d-%016x.wal", parseU(ops[p]), parseU(ops[p+1]))] = m
+				p += 3
+			}
 			i = p - 1
 			if r.cfs == nil {
 				return "badinput"
@@ -942,7 +951,17 @@ func (r *walRun) run() string {
 			r.alts = dedupAlts(alts)
 			r.stable = stableClone(st)
 			// torn batches: only the header chunk of the pending write persists (deterministic)
-			r.cfs = r.cfs.imageAt(k, keepFile, keepBatch, nil)
+			r.cfs = r.cfs.imageAt(k, keepFile, keepBatch, func(name string, nch int) []bool {
+				m := torn[name]
+				if m == nil {
+					return nil
+				}
+				b := make([]bool, nch)
+				for ch := 0; ch < nch; ch++ {
+					b[ch] = m.Bit(ch) == 1
+				}
+				return b
+			})
 			r.w = nil
 			r.afterCrash = true
 			r.faulted = false
